@@ -66,6 +66,11 @@ Definition mkobs (fault : bool) (v len : N) (rs : list (N * list N)) : obs :=
 Definition kv (k v : list N) : list N * list N := (k, v).
 Definition me (id : N) (l : list (list N * list N)) : mapent := (id, l).
 
+(* padding pattern of the harness' base frames: byte i = (i*7+1) mod 256, for i = start .. start+n-1 *)
+Fixpoint padgen_from (i : N) (n : nat) : list N :=
+  match n with O => [] | S k => N.land (i * 7 + 1) 255 :: padgen_from (i + 1) k end.
+Definition padgen (start n : N) : list N := padgen_from start (N.to_nat n).
+
 Definition case : Type := op * obs.
 (* the frame is the first L bytes of a base frame shared by the cases of one group *)
 Definition mkcase (p : N) (ms : list mapent) (now L maxlen : N) (base : list N) (o : obs) : case :=
